@@ -458,6 +458,7 @@ package parse
 //@   ensures implies(prefix != "" && old(node_prefix(n.tree.Root) == prefix) && node_root(old(n.tree.Root)) != nil, result1 == nil && result0 == node_ns(node_root(old(n.tree.Root))))
 //@   ensures implies(prefix != "" && old(node_prefix(n.tree.Root) != prefix) &&
 //@           !old(exists(k, 0, len(imports(n.tree.Root)), node_prefix(imports(n.tree.Root)[k]) == prefix)), result1 != nil)
+//@   ensures implies(prefix == "" && node_usesroot(iface(n)) != nil && node_type(node_usesroot(iface(n))) != NodeSubmodule, result1 == nil && result0 == node_ns(node_usesroot(iface(n))))
 // createFakeModule parses a generated stub module: it only allocates new objects.
 //@ func createFakeModule
 //@   assumed
@@ -471,6 +472,7 @@ package parse
 //@ func (Node).LookupGrouping
 //@   params s
 //@   ensures implies(result1, result0 != nil)
+//@   ensures result0 == node_grouping(self, s) && result1 == node_hasgrouping(self, s)
 //@ func (HasArgument).ArgIdRef
 //@ func (Node).Def
 //@ func (Node).HasDef
